@@ -91,9 +91,18 @@ def check_ring(drv, c, cl, sg, fails, base=None):
     opts = options(cl, sg)
     tag = f'cell_to_boundary({c}, {opts})'
     try:
-        ring = a5.cell_to_boundary(c, opts) if opts or True else a5.cell_to_boundary(c)
+        ring = a5.cell_to_boundary(c, opts)
     except Exception as e:  # noqa
         fails.append(Failure(f'{tag} raises {type(e).__name__}', {'cell': c, 'closed': cl, 'seg': sg})); return
+    if not opts:
+        # "everything omitted" has three spellings: an empty dict, None, and no options argument at all
+        for how, call in (('no options argument', lambda: a5.cell_to_boundary(c)), ('options=None', lambda: a5.cell_to_boundary(c, None))):
+            try:
+                other = call()
+            except Exception as e:  # noqa
+                fails.append(Failure(f'cell_to_boundary({c}) with {how} raises {type(e).__name__}', {'cell': c, 'closed': cl, 'seg': sg})); return
+            if [tuple(q) for q in other] != [tuple(q) for q in ring]:
+                fails.append(Failure(f'cell_to_boundary({c}) with {how} differs from the ring for an empty options dict', {'cell': c, 'closed': cl, 'seg': sg})); return
     r = ref_res(c)
     nseg = max(1, 2 ** (6 - r)) if sg in ('omit', None, 'auto') else max(1, sg)
     closed = True if cl is None else cl
